@@ -5,6 +5,7 @@ import (
 	"go/constant"
 	"go/token"
 	"go/types"
+	"math/bits"
 	"strings"
 
 	"golang.org/x/tools/go/ssa"
@@ -97,6 +98,8 @@ type Engine struct {
 	escaped      map[*Term]bool
 	escSeen      map[*Term]bool
 	snapCount    int
+	frozenKey    map[string]bool
+	subTag       map[string]int64
 }
 
 func NewEngine(P *Program) *Engine {
@@ -105,7 +108,7 @@ func NewEngine(P *Program) *Engine {
 		typeIDs: map[string]int{}, typeByID: map[int]types.Type{}, strLitText: map[string]string{},
 		assumption: map[string]bool{}, inlined: map[string]bool{}, usedCtr: map[string]bool{}, funcsSeen: map[string]bool{},
 		writeMemo: map[string]*writeSet{}, loopInfo: map[*ssa.Function]*loopInfo{}, globalRefs: map[string]*Term{}, maxDepth: 60,
-		closureByRef: map[*Term]*Closure{}, retMemo: map[*ssa.Function]*retOrigin{}, negMemo: map[*Term][]*Term{}, snaps: map[int]*State{}, pureFns: map[*Term]bool{}, cellClosure: map[*Term]*Closure{}, escaped: map[*Term]bool{}, escSeen: map[*Term]bool{}, arithChecked: map[*ssa.Function]bool{}}
+		closureByRef: map[*Term]*Closure{}, retMemo: map[*ssa.Function]*retOrigin{}, negMemo: map[*Term][]*Term{}, snaps: map[int]*State{}, pureFns: map[*Term]bool{}, cellClosure: map[*Term]*Closure{}, escaped: map[*Term]bool{}, escSeen: map[*Term]bool{}, frozenKey: map[string]bool{}, arithChecked: map[*ssa.Function]bool{}}
 	tb := E.tb
 	tb.DeclSort(SRef)
 	tb.DeclSort(SUnit)
@@ -1145,6 +1148,43 @@ func (E *Engine) binop(fr *Frame, st *State, t *ssa.BinOp) Val {
 		case token.GEQ:
 			return tb.Cmp(">=", a, b)
 		case token.AND, token.OR, token.XOR, token.SHL, token.SHR, token.AND_NOT:
+			if x, ok := a.IntVal(); ok {
+				if y, ok := b.IntVal(); ok && x >= 0 && y >= 0 && y < 62 || ok && x >= 0 && y >= 0 && t.Op != token.SHL && t.Op != token.SHR {
+					switch t.Op {
+					case token.AND:
+						return tb.Int(x & y)
+					case token.OR:
+						return tb.Int(x | y)
+					case token.XOR:
+						return tb.Int(x ^ y)
+					case token.AND_NOT:
+						return tb.Int(x &^ y)
+					case token.SHR:
+						return tb.Int(x >> uint(y))
+					case token.SHL:
+						if x < 1<<20 && y < 40 {
+							return tb.Int(x << uint(y))
+						}
+					}
+				}
+			}
+			if t.Op == token.AND {
+				// x & mask for a literal mask with few bits: exact (bit k of x is floor(x / 2^k) mod 2)
+				x, m := a, b
+				if _, ok := x.IntVal(); ok {
+					x, m = b, a
+				}
+				if mv, ok := m.IntVal(); ok && mv >= 0 && bits.OnesCount64(uint64(mv)) <= 8 {
+					sum := tb.Int(0)
+					for k := 0; k < 62; k++ {
+						if mv&(1<<uint(k)) != 0 {
+							bit := tb.App("mod", SInt, tb.App("div", SInt, x, tb.Int(1<<uint(k))), tb.Int(2))
+							sum = tb.Arith("+", sum, tb.Arith("*", tb.Int(1<<uint(k)), bit))
+						}
+					}
+					return sum
+				}
+			}
 			E.note("bit operation modelled as an uninterpreted function")
 			return tb.UF("bitop$"+sanitize(t.Op.String()), SInt, a, b)
 		}
